@@ -100,6 +100,15 @@ def stepNS (st : NS) (op impl : String) : NS × StepOut :=
       | _ => (["unparsable"], true)
     (st, { model := if dirOk then impl else "model: survivor must be a dial of the node whose name sorts last",
            oracle := orc, nontrivial := decide (ds.length > 1) })
+  | "ni" :: what :: _ =>
+    -- paired non-interference experiment (theorems `unauthenticated_cannot_influence_*`):
+    -- the implementation's answer with an unauthenticated name-spoofing session present
+    -- must equal its answer without it.
+    if what == "begin" then (st, { model := "ok" }) else
+    let orc := match impl.splitOn " | " with
+      | [a, b] => if a == b then [] else ["unauthenticated-session-influenced-" ++ what]
+      | _ => ["unparsable"]
+    (st, { model := impl, oracle := orc, nontrivial := what == "commit" })
   | ["ns", this] => ({ thisName := this, sessions := [] }, { model := "ok" })
   | ["open", srv, pid] =>
     match parseBool? srv, pid.toNat? with
@@ -148,7 +157,7 @@ def step (ds : DS) (op impl : String) : DS × StepOut :=
     let ready := if impl == "true" then (pid.toNat?.map (· :: ds.readyImpl)).getD ds.readyImpl else ds.readyImpl
     let orc := if readyOk ns' ready then [] else ["two-ready-sessions-for-one-peer-on-acceptor"]
     ({ ns := ns', readyImpl := ready }, { out with oracle := out.oracle ++ orc })
-  | "visible" :: _ | "checkc" :: _ | "checks" :: _ | "elect" :: _ | "world" :: _ | "e2e" :: _ => ({ ds with ns := ns' }, out)
+  | "visible" :: _ | "checkc" :: _ | "checks" :: _ | "elect" :: _ | "world" :: _ | "e2e" :: _ | "ni" :: _ => ({ ds with ns := ns' }, out)
   | _ => ({ ns := ns', readyImpl := [] }, out)
 
 def run (ops impl : Array String) : IO Tally :=
